@@ -488,3 +488,181 @@ Proof.
     exists f2. repeat split; assumption.
   - rewrite T. destruct e; reflexivity.
 Qed.
+
+(* ---- 1.4 validateSignature ---- *)
+Fixpoint enveloped_count (ts : list transform_t) : nat :=
+  match ts with
+  | [] => O
+  | t :: r => ((if tr_alg t =?s alg_enveloped then 1 else 0) + enveloped_count r)%nat
+  end.
+(* the canonicaliser the transform loop ends with (unknown identifiers: the loop fails anyway) *)
+Fixpoint transforms_alg (ts : list transform_t) (c : option canon_alg) : option canon_alg :=
+  match ts with
+  | [] => c
+  | t :: r => if tr_alg t =?s alg_enveloped then transforms_alg r c
+              else transforms_alg r (match c14n_of t with Some x => Some x | None => c end)
+  end.
+Definition effective_alg (r : reference) : canon_alg :=
+  match transforms_alg (ref_transforms r) None with Some c => c | None => CNull end.
+
+Lemma apply_transforms_step t r p el c :
+  apply_transforms (t :: r) p el c =
+  if tr_alg t =?s alg_enveloped then
+    match remove_at_path el p with
+    | Some el' => apply_transforms r p el' c
+    | None => Err (EOther "transform-sig-not-found")
+    end
+  else match c14n_of t with
+       | Some x => apply_transforms r p el (Some x)
+       | None => Err (EOther "unknown-transform")
+       end.
+Proof.
+  cbn [apply_transforms]. unfold c14n_of. destruct (tr_alg t =?s alg_enveloped); [reflexivity|].
+  repeat match goal with |- context [if ?b then _ else _] => destruct b; [reflexivity|] end. reflexivity.
+Qed.
+
+Lemma apply_transforms_alg : forall ts p el c el' c',
+  apply_transforms ts p el c = Ok (el', c') -> c' = transforms_alg ts c.
+Proof.
+  induction ts as [|t r IH]; intros p el c el' c' H.
+  - cbn in H. injection H as _ <-. reflexivity.
+  - rewrite apply_transforms_step in H. cbn [transforms_alg].
+    destruct (tr_alg t =?s alg_enveloped).
+    + destruct (remove_at_path el p); [eapply IH; exact H | discriminate H].
+    + destruct (c14n_of t); [eapply IH; exact H | discriminate H].
+Qed.
+
+Lemma apply_transforms_sc : forall ts p p' el c,
+  (enveloped_count ts = 0%nat \/ (enveloped_count ts = 1%nat /\ npath el p = Some p')) ->
+  apply_transforms ts p' (sc el) c = rmap (fun t => (sc (fst t), snd t)) (apply_transforms ts p el c).
+Proof.
+  induction ts as [|t r IH]; intros p p' el c H; [reflexivity|].
+  rewrite !apply_transforms_step. cbn [enveloped_count] in H.
+  destruct (tr_alg t =?s alg_enveloped).
+  - destruct H as [H|[H Q]]; [discriminate H|]. injection H as H.
+    rewrite (npath_remove _ _ _ Q). destruct (remove_at_path el p) as [el'|]; [|reflexivity]. cbn [option_map].
+    apply IH. left. exact H.
+  - destruct (c14n_of t); [|reflexivity]. apply IH. exact H.
+Qed.
+
+Section Validate.
+  Variable digest : string -> string -> option string.
+  Variable sig_ok : cert -> string -> string -> string -> bool.
+  Variable parse_cert : string -> option cert.
+  Variable reparse : string -> option node.
+
+  (* the reference validateSignature settles on (after the signature over SignedInfo; the checks in between do not matter
+     for WHICH reference it would be) *)
+  Definition picked_reference_at (root' : node) (f : found_sig) : res reference :=
+    do si_bytes <- canonical_signed_info canon_model root' f;
+    match reparse si_bytes with
+    | None => Err (EOther "si-unmarshal")
+    | Some sin =>
+        do sinfo2 <- unmarshal_signed_info sin;
+        match pick_reference (id_of root') (si_refs sinfo2) with
+        | None => Err (EOther "missing-reference")
+        | Some r => Ok r
+        end
+    end.
+  Definition picked_reference (root : node) : res reference :=
+    do rf <- find_signature root; picked_reference_at (fst rf) (snd rf).
+
+  (* comments cannot matter for this reference: at most one enveloped-signature transform (a second one removes whatever
+     token has moved to the signature's index), and the canonicaliser the transforms end with drops comments *)
+  Definition ref_comment_safe (r : reference) : bool :=
+    Nat.leb (enveloped_count (ref_transforms r)) 1 && negb (keeps_comments (effective_alg r)).
+
+  (* SignedInfo: its canonicaliser drops comments, or there is no comment inside it *)
+  Definition si_comment_safe (f : found_sig) : Prop :=
+    keeps_comments (fs_si_alg f) = false \/ sc (fs_si_detached f) = fs_si_detached f.
+
+  Lemma canonical_signed_info_sc root' f1 f2 :
+    fs_si_alg f2 = fs_si_alg f1 -> fs_si_detached f2 = sc (fs_si_detached f1) ->
+    npath root' (fs_path f1) = Some (fs_path f2) -> si_comment_safe f1 ->
+    canonical_signed_info canon_model (sc root') f2 = canonical_signed_info canon_model root' f1.
+  Proof.
+    intros A2 A3 Q S. unfold canonical_signed_info. f_equal.
+    rewrite (npath_parent_ctx _ _ _ default_ctx Q).
+    destruct (parent_ctx default_ctx root' (fs_path f1)) as [pc|e]; [|reflexivity]. cbn [bind].
+    destruct (npath_node_at _ _ _ Q) as (s & N1 & N2). rewrite N1, N2.
+    pose proof (find_one_child_sc pc s ds_ns "SignedInfo" traversal_limit) as F. unfold fcl_rel in F.
+    assert (C : canon_model (fs_si_alg f2) (fs_si_detached f2) = canon_model (fs_si_alg f1) (fs_si_detached f1)).
+    { rewrite A2, A3. destruct S as [S|S]; [apply canon_ignores_comments; exact S | rewrite S; reflexivity]. }
+    destruct (find_one_child pc s ds_ns "SignedInfo" traversal_limit) as [[[[j k]|] l]|e].
+    - destruct F as (d & d' & _ & _ & ->). cbn [bind fst]. rewrite C. reflexivity.
+    - rewrite F. reflexivity.
+    - rewrite F. reflexivity.
+  Qed.
+
+  Lemma transform_sc root' p p' r :
+    npath root' p = Some p' -> ref_comment_safe r = true ->
+    match transform root' p r with
+    | Err e => transform (sc root') p' r = Err e
+    | Ok (el, a) => transform (sc root') p' r = Ok (sc el, a) /\ keeps_comments a = false
+    end.
+  Proof.
+    intros Q S. unfold ref_comment_safe in S. apply andb_true_iff in S as [S1 S2]. apply Nat.leb_le in S1. apply negb_true_iff in S2.
+    unfold transform. rewrite (apply_transforms_sc (ref_transforms r) p p' root' None).
+    2:{ destruct (enveloped_count (ref_transforms r)) as [|[|n]]; [left; reflexivity | right; split; [reflexivity | exact Q] | lia]. }
+    destruct (apply_transforms (ref_transforms r) p root' None) as [[el c]|e] eqn:AT; [|reflexivity]. cbn [rmap bind fst snd].
+    split; [reflexivity|]. apply apply_transforms_alg in AT. unfold effective_alg in S2. rewrite <- AT in S2. exact S2.
+  Qed.
+
+  Lemma validate_signature_sc root' f1 f2 c :
+    fs_sig f2 = fs_sig f1 -> fs_si_alg f2 = fs_si_alg f1 -> fs_si_detached f2 = sc (fs_si_detached f1) ->
+    npath root' (fs_path f1) = Some (fs_path f2) ->
+    si_comment_safe f1 ->
+    (forall r, picked_reference_at root' f1 = Ok r -> ref_comment_safe r = true) ->
+    validate_signature canon_model digest sig_ok reparse (sc root') f2 c =
+    validate_signature canon_model digest sig_ok reparse root' f1 c.
+  Proof.
+    intros A1 A2 A3 Q S1 S2. unfold validate_signature. rewrite A1.
+    destruct (sg_signed_info (fs_sig f1)) as [sinfo|]; [|reflexivity].
+    rewrite (canonical_signed_info_sc root' f1 f2 A2 A3 Q S1).
+    unfold picked_reference_at in S2.
+    destruct (canonical_signed_info canon_model root' f1) as [si_bytes|e]; [|reflexivity]. cbn [bind] in *.
+    destruct (negb (mem_str (si_sig_alg sinfo) known_sig_methods)); [reflexivity|].
+    destruct (sg_value (fs_sig f1)) as [data|]; [|reflexivity].
+    destruct (base64_decode data) as [raw|]; [|reflexivity].
+    destruct (negb (sig_ok c (si_sig_alg sinfo) si_bytes raw)); [reflexivity|].
+    destruct (reparse si_bytes) as [sin|]; [|reflexivity].
+    destruct (unmarshal_signed_info sin) as [sinfo2|e]; [|reflexivity]. cbn [bind] in *.
+    rewrite id_of_sc.
+    destruct (pick_reference (id_of root') (si_refs sinfo2)) as [r|]; [|reflexivity].
+    destruct (base64_decode (ref_digest_value r)) as [want|]; [|reflexivity].
+    pose proof (transform_sc root' _ _ r Q (S2 r eq_refl)) as T.
+    destruct (transform root' (fs_path f1) r) as [[el a]|e]; [|rewrite T; reflexivity].
+    destruct T as [-> K]. cbn [bind fst snd]. rewrite (canon_ignores_comments a el K). reflexivity.
+  Qed.
+
+  (* (1) the verdict on the stripped tree *)
+  Theorem validation_ignores_comments store now root :
+    (forall rf, find_signature root = Ok rf -> si_comment_safe (snd rf)) ->
+    (forall r, picked_reference root = Ok r -> ref_comment_safe r = true) ->
+    dsig_validate canon_model digest sig_ok parse_cert reparse store now (sc root) =
+    dsig_validate canon_model digest sig_ok parse_cert reparse store now root.
+  Proof.
+    intros S1 S2. destruct (is_elem root) eqn:HE; [|destruct root; try discriminate HE; reflexivity].
+    unfold dsig_validate, validate_res. unfold picked_reference in S2.
+    pose proof (find_signature_sc root HE) as F.
+    destruct (find_signature root) as [[root' f1]|e]; [|rewrite F; reflexivity].
+    destruct F as (f2 & -> & A1 & A2 & A3 & Q). cbn [bind fst snd] in *. rewrite A1.
+    destruct (no_missing (verify_certificate parse_cert store now (fs_sig f1))) as [c|e]; [|reflexivity]. cbn [bind].
+    rewrite (validate_signature_sc root' f1 f2 c A1 A2 A3 Q (S1 _ eq_refl) S2). reflexivity.
+  Qed.
+
+  (* two serialisations that differ by comments only, anywhere *)
+  Corollary validation_same_modulo_comments store now root1 root2 :
+    sc root1 = sc root2 ->
+    (forall rf, find_signature root1 = Ok rf -> si_comment_safe (snd rf)) ->
+    (forall rf, find_signature root2 = Ok rf -> si_comment_safe (snd rf)) ->
+    (forall r, picked_reference root1 = Ok r -> ref_comment_safe r = true) ->
+    (forall r, picked_reference root2 = Ok r -> ref_comment_safe r = true) ->
+    dsig_validate canon_model digest sig_ok parse_cert reparse store now root1 =
+    dsig_validate canon_model digest sig_ok parse_cert reparse store now root2.
+  Proof.
+    intros E A1 A2 B1 B2.
+    rewrite <- (validation_ignores_comments store now root1 A1 B1), <- (validation_ignores_comments store now root2 A2 B2), E.
+    reflexivity.
+  Qed.
+End Validate.
